@@ -56,11 +56,13 @@ func closeSyncFile(f *os.File) error {
 				return err
 			}
 		}
+		verifHook("sync", f.Name(), 0, nil)
 		if err := f.Close(); err != nil {
 			if !os.IsNotExist(err) {
 				return err
 			}
 		}
+		verifHook("close", f.Name(), 0, nil)
 	}
 	return nil
 }
@@ -70,6 +72,7 @@ func removeFile(fname string) error {
 	if err := os.Remove(fname); (err != nil) && !os.IsNotExist(err) {
 		return errors.Wrapf(err, "remove %v", fname)
 	}
+	verifHook("remove", fname, 0, nil)
 	return nil
 }
 
@@ -80,5 +83,6 @@ func openOrCreateFile(fname string, perm os.FileMode) (f *os.File, err error) {
 			return nil, fmt.Errorf("error opening or creating file: %s: %s", fname, err.Error())
 		}
 	}
+	verifHook("open", fname, 0, nil)
 	return f, nil
 }
